@@ -304,6 +304,10 @@ def encoding(
             logger.debug("gamma %s", gamma)
             logger.debug("vSums %s", vSums[index])
             logger.debug("fSums %s", fSums[index])
+        if vSums[index] and not fSums[index]:
+            # some world verifies and none falsifies this conditional (minimum over
+            # nothing is infinite), so it is accepted whatever the parameters are
+            continue
         mv, mf = freshVars(index)
         vMin = minima_encoding(mv, vSums[index])
         fMin = minima_encoding(mf, fSums[index])
